@@ -2,6 +2,7 @@ from __future__ import annotations
 
 from datetime import timedelta
 from typing import TYPE_CHECKING
+from typing import Any
 from typing import overload
 
 import pendulum
@@ -467,6 +468,12 @@ class Duration(timedelta):
             return q, self.__class__(0, 0, r)
 
         return NotImplemented
+
+    def __reduce__(self) -> tuple[Any, ...]:
+        # timedelta only carries (days, seconds, microseconds), in which
+        # years and months are already folded into days: carry the
+        # attributes set by __new__ as well, so that they are restored as is.
+        return (*super().__reduce__(), self.__dict__)
 
     def __deepcopy__(self, _: dict[int, Self]) -> Self:
         return self.__class__(
